@@ -195,14 +195,17 @@ Fixpoint nv_handles (s : sdk) (n : nat) : res (sdk * list nat) :=
         end
   end.
 
-(* _create_ent_qubits *)
+(* _create_ent_qubits.  Every EPR operation appends commands after this, so an
+   allocation triple that ends the pending commands stops being the end: it is
+   committed here (same command order, and no relocation happens later in the
+   operation). *)
 Definition ent_handles (k : cfg) (s : sdk) (n : nat) : res (sdk * list nat) :=
   if nv k then
     match free_up0 s with
     | inr e => inr e
-    | inl s1 => nv_handles s1 n
+    | inl s1 => nv_handles (commit s1) n
     end
-  else fresh_handles s n.
+  else fresh_handles (commit s) n.
 
 (* _build_cmds_wait_move_epr_to_mem: every pair arrives in ID 0; all but the last
    are moved to their memory qubit and ID 0 is freed.  vs = final IDs per pair *)
